@@ -69,6 +69,7 @@ func (e *e1Engine) helperBool(v ssa.Value, lits []Lit, matched []int) (known, va
 	inlineDepth++
 	defer func() { paramSubst = saved; phiResolver = savedPhi; inlineDepth-- }()
 
+	hasLoop := len(naturalLoops(callee)) > 0
 	// feasible edges of the callee under the valuation
 	type edge [2]*ssa.BasicBlock
 	feas := map[edge]bool{}
@@ -122,8 +123,24 @@ func (e *e1Engine) helperBool(v ssa.Value, lits []Lit, matched []int) (known, va
 		succs := b.Succs
 		if iff, ok := b.Instrs[len(b.Instrs)-1].(*ssa.If); ok && len(succs) == 2 {
 			// a phi condition needs the edges into b settled; blocks are visited in BFS order, which for
-			// the short-circuit shapes go/ssa emits has all forward predecessors done; loops give up below
-			if k, r := evalV(iff.Cond, 0); k {
+			// the short-circuit shapes go/ssa emits has all forward predecessors done. In a body with a
+			// loop that is not so: there, a condition that is (a negation of) a phi is left undecided and
+			// both edges are followed, so that the set of feasible edges never depends on visiting order
+			undecidable := false
+			if hasLoop {
+				c := iff.Cond
+				for {
+					c = stripConv(c)
+					if u, ok := c.(*ssa.UnOp); ok && u.Op == token.NOT {
+						c = u.X
+						continue
+					}
+					break
+				}
+				_, undecidable = c.(*ssa.Phi)
+			}
+			if undecidable {
+			} else if k, r := evalV(iff.Cond, 0); k {
 				if r {
 					succs = succs[:1]
 				} else {
@@ -137,12 +154,6 @@ func (e *e1Engine) helperBool(v ssa.Value, lits []Lit, matched []int) (known, va
 				seen[s] = true
 				q = append(q, s)
 			}
-		}
-	}
-	// a back edge means the pruned walk above may have judged a phi on partial information
-	for ed := range feas {
-		if ed[1].Index <= ed[0].Index && ed[1].Dominates(ed[0]) {
-			return false, false
 		}
 	}
 	first, res := true, false
